@@ -22,8 +22,10 @@ VARIABLES reg,      \* name -> decoration id
           pc,       \* [Procs -> "idle" | "locked" | "done-body"]
           ip,       \* [Procs -> index of the current op]
           results,  \* [Procs -> Seq(result)]
-          order     \* linearization order: Seq(<<proc, index>>)
-vars == <<reg, lock, pc, ip, results, order>>
+          order,    \* linearization order: Seq(<<proc, index>>)
+          clk,      \* a clock read when an operation takes its lock and when it releases it
+          iv        \* [Procs -> Seq([s, e])]: those two readings per operation (e = 0 while in progress)
+vars == <<reg, lock, pc, ip, results, order, clk, iv>>
 
 Empty == "EMPTY"
 Lookup(r, n) == IF n \in DOMAIN r THEN r[n] ELSE Empty
@@ -40,6 +42,7 @@ Holds(p) == lock.writer = p \/ p \in lock.readers
 Init == /\ reg = Builtins /\ lock = [writer |-> 0, readers |-> {}]
         /\ pc = [p \in Procs |-> "idle"] /\ ip = [p \in Procs |-> 1]
         /\ results = [p \in Procs |-> <<>>] /\ order = <<>>
+        /\ clk = 0 /\ iv = [p \in Procs |-> <<>>]
 
 CurOp(p) == Prog[p][ip[p]]
 
@@ -47,6 +50,7 @@ Lock(p) == /\ pc[p] = "idle" /\ ip[p] <= Len(Prog[p])
            /\ IF IsWrite(CurOp(p)) THEN Free /\ lock' = [lock EXCEPT !.writer = p]
               ELSE lock.writer = 0 /\ lock' = [lock EXCEPT !.readers = @ \cup {p}]
            /\ pc' = [pc EXCEPT ![p] = "locked"]
+           /\ clk' = clk + 1 /\ iv' = [iv EXCEPT ![p] = Append(@, [s |-> clk + 1, e |-> 0])]
            /\ UNCHANGED <<reg, ip, results, order>>
 
 Body(p) == /\ pc[p] = "locked" /\ Holds(p)
@@ -60,11 +64,12 @@ Body(p) == /\ pc[p] = "locked" /\ Holds(p)
                                  [] o.op = "list" -> Listing(reg))]
            /\ order' = Append(order, <<p, ip[p]>>)
            /\ pc' = [pc EXCEPT ![p] = "done-body"]
-           /\ UNCHANGED <<lock, ip>>
+           /\ UNCHANGED <<lock, ip, clk, iv>>
 
 Unlock(p) == /\ pc[p] = "done-body" /\ Holds(p)
              /\ lock' = IF lock.writer = p THEN [lock EXCEPT !.writer = 0] ELSE [lock EXCEPT !.readers = @ \ {p}]
              /\ pc' = [pc EXCEPT ![p] = "idle"] /\ ip' = [ip EXCEPT ![p] = @ + 1]
+             /\ clk' = clk + 1 /\ iv' = [iv EXCEPT ![p][ip[p]].e = clk + 1]
              /\ UNCHANGED <<reg, results, order>>
 
 Next == \E p \in Procs : Lock(p) \/ Body(p) \/ Unlock(p)
@@ -120,4 +125,41 @@ FinalState ==
 ListingComplete ==
   \A p \in Procs : \A i \in DOMAIN results[p] :
     Prog[p][i].op = "list" => DOMAIN Builtins \subseteq results[p][i]
+
+-----------------------------------------------------------------------------
+(* What an observer OUTSIDE the lock can tell.  It sees only when each call  *)
+(* began and ended (here: the narrowest such interval, lock to unlock; a     *)
+(* call that waits for the lock begins earlier, which only weakens what      *)
+(* follows).  A precedes B iff A ended before B began.  The lock discipline  *)
+(* above implies the "regular register" reading of C17 that                  *)
+(* RegistryTrace.tla demands of the real registry's call/return log:         *)
+
+Ops == {<<p, i>> : p \in Procs, i \in 1..2} \cap {<<p, i>> \in Procs \X (1..10) : i <= Len(iv[p])}   \* begun
+OpOf(x) == Prog[x[1]][x[2]]
+Iv(x) == iv[x[1]][x[2]]
+Completed(x) == Iv(x).e # 0
+Before(x, y) == Completed(x) /\ Iv(x).e < Iv(y).s
+
+Writes(n) == {x \in Ops : OpOf(x).op = "register" /\ OpOf(x).name = n}
+
+\* a completed lookup returned a decoration registered under its name by a registration that began before the
+\* lookup ended and was not overwritten -- by one that began after it ended and ended before the lookup began;
+\* what the name denoted at the start only while no registration of it had ended before the lookup began
+LookupRegular ==
+  \A x \in Ops : (OpOf(x).op = "named" /\ Completed(x)) =>
+    LET n == OpOf(x).name
+        overwritten(w) == \E w2 \in Writes(n) : Before(w, w2) /\ Before(w2, x)
+        cand == {OpOf(w).d : w \in {v \in Writes(n) : Iv(v).s < Iv(x).e /\ ~overwritten(v)}}
+                \cup (IF \E w \in Writes(n) : Before(w, x) THEN {} ELSE {Lookup(Builtins, n)})
+    IN results[x[1]][x[2]] \in cand
+
+\* a completed listing holds every built-in and every name whose registration ended before it began, and
+\* nothing whose registration had not at least begun before it ended
+ListingRegular ==
+  \A x \in Ops : (OpOf(x).op = "list" /\ Completed(x)) =>
+    LET must == DOMAIN Builtins \cup {OpOf(w).name : w \in {v \in Ops : OpOf(v).op = "register" /\ Before(v, x)}}
+        may == DOMAIN Builtins \cup {OpOf(w).name : w \in {v \in Ops : OpOf(v).op = "register" /\ Iv(v).s < Iv(x).e}}
+    IN must \subseteq results[x[1]][x[2]] /\ results[x[1]][x[2]] \subseteq may
+
+Regular == LookupRegular /\ ListingRegular
 =============================================================================
